@@ -15,6 +15,11 @@ def tables_kept_on_fault(ctx, **kw):
     return c03.faults_multi(ctx, **kw)
 
 
+def table_follows_cooling(ctx, **kw):
+    from harness import c13
+    return c13.lookup_refresh(ctx, **kw)
+
+
 def volume_factor_follows_energies(ctx, **kw):
     from harness import c14
     return c14.cache(ctx, **kw)
@@ -28,6 +33,9 @@ EXTRA = [
     Harness("C01.tables_kept_on_fault", tables_kept_on_fault, functions=[],
             assumptions=["as C03.faults_multi: a backend fault with non-negative driving force keeps the interfacial composition tables"],
             params={"quick": [{"nph": 1, "ncls": 2, "nel": 2}], "thorough": [{"nph": 2, "ncls": 2, "nel": 2}]}),
+    Harness("C01.table_follows_cooling", table_follows_cooling, functions=[],
+            assumptions=["as C13.lookup_refresh: the binary lookup table (the precipitate composition the balance books with) is rebuilt when the temperature has drifted by more than maxTempChange in EITHER direction"],
+            params={"quick": [{"bins": 3}], "thorough": [{"bins": 3}]}),
     Harness("C01.volume_factor_follows_energies", volume_factor_follows_energies, functions=[],
             opts={"symbolic_pi": True, "branch_timeout_ms": 6000, "twin_timeout": 40.0},
             assumptions=["as C14.cache: the cached volume factor (particle volume = factor * R^3 in the balance) is that of the current energies and site"],
